@@ -174,6 +174,23 @@ func genShape(p *pkgInfo, out string) {
 	sb := squash(p.src(p.fn("kvElection.Status").Body))
 	flag("statusUnderReadLock", "Status() assembles its snapshot under the election's read lock (transitions write isLeader, state, token and leader id inside one critical section)",
 		strings.HasPrefix(sb, "{ e.mu.RLock() defer e.mu.RUnlock()"))
+	// both stop calls: one critical section cancels the run's context, lowers the flag and records STOPPED - in that order,
+	// with no unlock in between (an in-flight acquisition that is answered later finds the run over)
+	stopAtomic := func(fn string) bool {
+		body := squash(p.src(p.fn(fn).Body))
+		iCancel := strings.Index(body, "e.cancel()")
+		iFlag := strings.Index(body, "e.isLeader.Store(false)")
+		iState := strings.Index(body, "e.state.Store(StateStopped)")
+		if iCancel < 0 || iFlag < iCancel || iState < iFlag {
+			return false
+		}
+		return !strings.Contains(body[iCancel:iState], "e.mu.Unlock()")
+	}
+	flag("stopCancelsInsideItsCriticalSection", "Stop and StopWithContext cancel the run's context, lower the flag and record STOPPED inside one critical section, in that order",
+		stopAtomic("kvElection.Stop") && stopAtomic("kvElection.StopWithContext"))
+	tk0 := squash(p.src(p.fn("kvElection.Token").Body))
+	flag("tokenAccessorIsTheStoredToken", "Token() returns the stored token unconditionally (the heartbeat builds its refresh from it after its leadership re-check: an accessor that also looks at the flag could hand it an empty token)",
+		tk0 == "{ if t := e.token.Load(); t != nil { return t.(string) } return \"\" }")
 	flag("ctxCancelStepsDown", "Start spawns a goroutine that steps down when the run's context ends without a stop call",
 		strings.Contains(stt, "<-runCtx.Done()") && strings.Contains(stt, "byStop := e.stopped || e.ctx != runCtx") &&
 			strings.Contains(stt, "if !byStop { e.stepDown(\"context_cancelled\") }"))
